@@ -141,6 +141,10 @@ pub enum TsStage {
 pub struct TsJob {
     pub source: TsSource,
     pub stages: Vec<TsStage>,
+    /// > 0: the stages are the body of `replay(rounds, ..)` - the loop head stores the timestamped
+    /// script of its replica (elements and watermarks) and replays it every round
+    #[serde(default)]
+    pub replay_rounds: u32,
 }
 
 pub struct TsBuilder<'a> {
@@ -176,7 +180,34 @@ impl<'a> TsBuilder<'a> {
         self.tap(s, "source")
     }
     pub fn job(&mut self, job: &TsJob) -> DStream<Rec> {
-        let mut s = self.source(&job.source);
+        let s = self.source(&job.source);
+        if job.replay_rounds > 0 {
+            let stages = job.stages.clone();
+            let src_repl = job.source.repl;
+            // SAFETY: the body closure is invoked synchronously inside `replay`, while `self` is
+            // exclusively borrowed by this call; the pointer only erases the lifetime.
+            let this_ptr = self as *mut TsBuilder<'a> as *mut TsBuilder<'static>;
+            let state = s.replay(
+                job.replay_rounds as usize,
+                0i64,
+                move |s, _state| {
+                    let this: &mut TsBuilder<'static> = unsafe { &mut *this_ptr };
+                    let mut s = this.tap(erase(s), "loop-in");
+                    let mut repl = src_repl;
+                    for st in &stages {
+                        let (s2, r2) = this.stage(s, st, repl);
+                        s = s2;
+                        repl = r2;
+                    }
+                    s
+                },
+                |d: &mut i64, _x: Rec| *d += 1,
+                |st: &mut i64, d: i64| *st += d,
+                |_st: &mut i64| true,
+            );
+            return erase(state.map(Rec::new));
+        }
+        let mut s = s;
         let mut repl = job.source.repl;
         for st in &job.stages {
             let (s2, r2) = self.stage(s, st, repl);
@@ -366,6 +397,8 @@ pub struct TsProfile {
     /// a chain of single-replica blocks fed by ONE source replica that runs several iterations
     /// (sound: no other replica can run ahead into the next iteration)
     pub single_replica_iterations: bool,
+    /// the stages are the body of a `replay` loop of 2-4 rounds over a multi-replica source
+    pub in_replay: bool,
 }
 
 pub fn gen_job(ch: &mut Chooser, p: &TsProfile) -> TsJob {
@@ -379,6 +412,10 @@ pub fn gen_job(ch: &mut Chooser, p: &TsProfile) -> TsJob {
     if p.single_replica_iterations {
         source.repl = Repl::One;
     }
+    if p.in_replay {
+        // "Cannot have an iteration block with limited parallelism"
+        source.repl = Repl::Unlimited;
+    }
     let mut stages = Vec::new();
     let n = 1 + ch.below(6);
     let mut timestamped = true;
@@ -386,7 +423,10 @@ pub fn gen_job(ch: &mut Chooser, p: &TsProfile) -> TsJob {
         if ch.exhausted() {
             break;
         }
-        let w = if p.single_replica_iterations {
+        let w = if p.in_replay {
+            // stages that keep the stream inside the loop and make sense there
+            [3u32, 2, 1, 5, 4, 0, 2, 2, 0, 1, 0, if p.windows { 3 } else { 0 }, 0, 0, 0]
+        } else if p.single_replica_iterations {
             // only stages that keep everything on one replica
             [3u32, 2, 1, 0, 0, 3, 2, 6, 1, 0, 0, 0, 0, 1, 0]
         } else if p.reorder_only {
@@ -452,7 +492,13 @@ pub fn gen_job(ch: &mut Chooser, p: &TsProfile) -> TsJob {
         }
         stages.push(st);
     }
-    TsJob { source, stages }
+    let replay_rounds = if p.in_replay { ch.range(2, 4) as u32 } else { 0 };
+    if p.in_replay && timestamped {
+        // the end of a loop body does not accept timestamped elements or watermarks
+        // (`IterationEnd`: unreachable!()): like every user of loops, drop them first
+        stages.push(TsStage::DropTimestamps);
+    }
+    TsJob { source, stages, replay_rounds }
 }
 
 // ---- oracles ------------------------------------------------------------------------------------
